@@ -188,6 +188,11 @@ def w_two_grids(ctx, rng, i):
     ctx.case(("grids", a, b, round(G / 5)), sample=dict(G=G, NF=NF, grid_sequence=[a, b, a]) if i < 2 else None)
 
 
+def FORM_TWINS():
+    import opticomlib.devices as dv
+    return [(dv, ["EDFA"])]
+
+
 WORKLOADS = [
     Workload("gain", w_gain, 2500, 60000),
     Workload("statistical", w_statistical, 24, 160, budget=300),
